@@ -1009,6 +1009,11 @@ class C19(SessionProp):
     def check_case(self, case):
         cfg, ops = case
         ops = [tup(o) for o in ops]
+        # selector 7 ("an identifier in use at the other broker") delivers nothing when the other address is
+        # absent; on a stream that a raw fragment has desynchronised those four bytes shift the framing of
+        # everything behind them, so the solo run would not be the same history: left out there
+        fragments = set(o[1] for o in ops if o[0] == "raw")
+        ops = [o for o in ops if not (o[0] == "rx" and len(o) > 3 and o[3] == 7 and o[1] in fragments)]
         vd = Verdict()
         merged = sim.run_case(dict(cfg), ops)
         if merged.too_big:
